@@ -14,7 +14,7 @@ for sid in ids:
     subprocess.run(["git", "-C", "/repo", "worktree", "remove", "--force", wt], capture_output=True)
     subprocess.run(["git", "-C", "/repo", "worktree", "add", "-q", "--detach", wt, "HEAD"], check=True)
     demo = [f for f in os.listdir(d) if f.startswith("demo") and f.endswith(".py")][0]
-    src = open(os.path.join(d, demo)).read().replace("/tmp/wt/%s" % meta["property"], wt)
+    src = re.sub(r"/tmp/wt/(r\d/)?%s\b" % meta["property"], wt, open(os.path.join(d, demo)).read())
     dpath = os.path.join(wt, "_demo_" + demo)
     open(dpath, "w").write(src)
     env = dict(os.environ, PYTHONPATH=wt)
